@@ -1051,7 +1051,8 @@ class Machine:
                     self.effects.append(("fill", child.slot, wv, m, sel))
                     return None
                 if m in ("zero", "copy"):
-                    return Child(f"new:{child.slot}")
+                    self.fresh_counter = getattr(self, "fresh_counter", 0) + 1
+                    return Child(f"new:{child.slot}#{self.fresh_counter}")
             if kind == "builtin":
                 return self.builtin(fn[1], args, kwargs, e, env, f)
             if kind == "modattr":
